@@ -12,7 +12,7 @@ RULE = ("peak-only series: exhaustive over the 5-level alphabet {-2..2} up to le
         "measures: random records, b in (0.05, 1], cut_off in [0, 0.1], scalar and array b (Float twin, budget 1e-9). "
         "distinct = hash of the series (+parameters); non-trivial = length >= 3 and not constant")
 TIE = "correspondence (hand models Model/Peaks.lean, Model/PowerLaw.lean)"
-PROP_MODULES = ['C13', 'C13PowerLaw', 'C13Scale', 'C13Gen', 'C13GenSeries']
+PROP_MODULES = ['C13', 'C13PowerLaw', 'C13Scale', 'C13ScaleRepair', 'C13Gen', 'C13GenSeries']
 NOT_PROVED = ["pow rounding in the power-law measures (Float twin vs impl, measured)",
               "inverse relation for cut_off > 0 (approximate by construction; evaluated numerically only)"]
 
